@@ -487,13 +487,128 @@ def do_mkknown(a):
     print("wrote", out, "ops:", sum(len(t["ops"]) for t in mplan["tasks"]), "violation:", {k: mv.get(k) for k in mv if k != "msg"}); print(mv.get("msg"))
     z.close(); return 0
 
+def canon_run(plan, r):
+    """what an application can observe: per op the function and return code(s), plus identified search/read-out contents (handle numbers and file names left out)"""
+    import hist as H
+    out = []
+    def strip(x):
+        if isinstance(x, dict):
+            return {k: strip(v) for k, v in x.items() if k not in ("h", "h2", "hs", "ho", "hk", "hw", "hu", "hb", "n", "t", "p", "e", "op", "edges", "files", "slot", "path", "serial", "utc", "cap")}
+        if isinstance(x, list): return [strip(v) for v in x]
+        return x
+    for tid, k, op, ret in H.walk(plan, r):
+        d = strip(ret)
+        if "ids" in d: d["ids"] = sorted((e.get("ref") or "?", e.get("label")) for e in ret.get("ids", []))
+        if "objs" in d: d["objs"] = sorted((json.dumps(o.get("attrs"), sort_keys=True) for o in ret.get("objs", [])))
+        if "batches" in d: d["batches"] = [(b.get("max"), b.get("rv"), b.get("n")) for b in ret.get("batches", [])]
+        d.pop("tree", None); d.pop("scan", None); d.pop("slots", None); d.pop("sessions", None); d.pop("objects", None)
+        out.append((tid, k, d))
+    return out
+
+def real_tree(root):
+    tree = {}
+    for d, dirs, files in os.walk(root):
+        for fn in files:
+            p = os.path.join(d, fn)
+            with open(p, "rb") as f: data = f.read()
+            tree["/sim/tokens" + p[len(root):]] = {"mode": "%04o" % (os.stat(p).st_mode & 0o7777), "hex": data.hex()}
+        for dn in dirs:
+            p = os.path.join(d, dn)
+            tree["/sim/tokens" + p[len(root):]] = {"dir": True, "mode": "%04o" % (os.stat(p).st_mode & 0o7777)}
+    return tree
+
+def disk_canon(tree):
+    """decoded disk: per token label -> sorted list of decoded object attribute maps (raw stored values), generation numbers ignored"""
+    import decoder
+    out = {}
+    for dname, td in decoder.decode_tree(tree).items():
+        objs_ = []
+        for fname, parsed in sorted(td.objects.items()):
+            if isinstance(parsed, Exception): objs_.append((fname, "UNPARSEABLE")); continue
+            objs_.append((fname, sorted((t, kind, v.hex() if isinstance(v, (bytes, bytearray)) else repr(v)) for t, (kind, v) in parsed[1].items())))
+        tok = getattr(td, "token_attrs", None)
+        out[dname] = {"objects": objs_, "token": sorted((t, kind, v.hex() if isinstance(v, (bytes, bytearray)) else repr(v)) for t, (kind, v) in tok.items()) if tok else None,
+                      "modes": sorted(td.modes.items())}
+    return out
+
+def do_selftest(a):
+    """determinism (same plan, two zygotes with different histories -> same event hash) and stub fidelity (simfs vs the real kernel)"""
+    import shutil, tempfile
+    t0 = time.time()
+    build("asan")
+    props = [p[:-3].upper() for p in sorted(os.listdir(os.path.join(HERE, "props"))) if p.startswith("c") and p.endswith(".py")]
+    z1 = simdrv.Zygote(); z2 = simdrv.Zygote()
+    n = a.n
+    mism = []; total = 0; per = {}
+    # perturb z2's history first
+    warm = load_prop("C03")
+    for i in range(5): z2.run(warm.gen(run_seed(99, "C03", i), "quick", i))
+    for prop in props:
+        mod = load_prop(prop)
+        cnt = max(2, n // len(props))
+        if prop == "C16": cnt = min(cnt, 3)
+        for i in range(cnt):
+            seed = run_seed(int(os.environ.get("VERIF_SEED", "1")) + 1000, prop, i)
+            plan = mod.gen(seed, "quick", i)
+            if hasattr(mod, "prepare"): plan = mod.prepare(plan, z1)
+            r1 = z1.run(plan); r2 = z2.run(plan)
+            total += 1; per[prop] = per.get(prop, 0) + 1
+            if r1.hash != r2.hash or r1.hash is None:
+                mism.append((prop, seed, r1.hash, r2.hash))
+    print("determinism: %d plans over %d properties run in two zygotes with different histories: %d hash mismatches" % (total, len(props), len(mism)))
+    for m in mism[:10]: print("  MISMATCH", m)
+    # stub fidelity
+    fid_bad = []; fid_n = 0
+    scratch = tempfile.mkdtemp(prefix="p11real-", dir=simdrv.scratch_root())
+    try:
+        for prop in ("C05", "C14", "C11", "C03", "C19"):
+            mod = load_prop(prop)
+            for i in range(max(2, a.n // 10)):
+                idx = i * 4 + 1 if prop == "C05" else i   # fault-free, non-fixture plans of C05
+                if prop == "C05": idx += 2 * len(mod.fixtures())
+                seed = run_seed(4711, prop, idx)
+                plan = mod.gen(seed, "quick", idx)
+                if plan.get("faults") or plan.get("profile") in ("fixture", "fault"): continue
+                if any(op.get("act") in ("rmtoken", "corrupt", "fsbackup") for t_ in plan["tasks"] for op in t_["ops"]): continue    # harness actions that exist on the simulated disk only
+                plan["knobs"]["final_disk"] = True
+                plan["knobs"]["short_io"] = False
+                plan["knobs"]["proc_umask"] = "%03o" % (os.umask(0)); os.umask(int(plan["knobs"]["proc_umask"], 8))
+                rs = z1.run(plan)
+                real = os.path.join(scratch, "t%d" % fid_n); os.makedirs(real)
+                plan2 = copy.deepcopy(plan); plan2["knobs"]["tokendir"] = real
+                rr = z1.run(plan2)
+                fid_n += 1
+                cs, cr = canon_run(plan, rs), canon_run(plan2, rr)
+                if cs != cr:
+                    k = next((j for j in range(min(len(cs), len(cr))) if cs[j] != cr[j]), None)
+                    fid_bad.append((prop, seed, "history differs at %s: sim %s / real %s" % (k, str(cs[k])[:300] if k is not None else len(cs), str(cr[k])[:300] if k is not None else len(cr))))
+                    continue
+                simtree = None
+                for e in rs.hist:
+                    if e.get("e") == "final_disk": simtree = e["tree"]
+                ds = disk_canon(simtree or {}); dr = disk_canon(real_tree(real))
+                if ds != dr:
+                    fid_bad.append((prop, seed, "final decoded disks differ: %s" % str([(k, ds.get(k) == dr.get(k)) for k in sorted(set(ds) | set(dr))])[:300]))
+                shutil.rmtree(real, ignore_errors=True)
+    finally:
+        shutil.rmtree(scratch, ignore_errors=True)
+    print("stub fidelity: %d fault-free plans executed on simfs and on the real kernel (pass-through): %d disagreements" % (fid_n, len(fid_bad)))
+    for m in fid_bad[:10]: print("  DISAGREE", m)
+    os.makedirs(os.path.join(VERIF, "evidence"), exist_ok=True)
+    json.dump({"determinism": {"plans": total, "per_property": per, "mismatches": [list(m) for m in mism]}, "stub_fidelity": {"plans": fid_n, "disagreements": [list(m) for m in fid_bad]}, "wall_s": round(time.time() - t0, 1)},
+              open(os.path.join(VERIF, "evidence", "selftest.json"), "w"), indent=1)
+    z1.close(); z2.close()
+    return 0 if not mism and not fid_bad else 2
+
 def main():
     ap = argparse.ArgumentParser()
     sub = ap.add_subparsers(dest="cmd")
     r = sub.add_parser("run"); r.add_argument("prop"); r.add_argument("--tier"); r.add_argument("--runs", type=int); r.add_argument("--budget", type=float); r.add_argument("--workers", type=int); r.add_argument("--survey", help="comma-separated violation fields: count all violations by these fields, no gating (development aid)")
     p = sub.add_parser("replay"); p.add_argument("file"); p.add_argument("--nobuild", action="store_true"); p.add_argument("--verbose", "-v", action="store_true")
     k = sub.add_parser("mkknown"); k.add_argument("prop"); k.add_argument("seed", type=int); k.add_argument("id"); k.add_argument("match", nargs="*"); k.add_argument("--maxindex", type=int, default=20000)
+    st_ = sub.add_parser("selftest"); st_.add_argument("--n", type=int, default=160)
     a = ap.parse_args()
+    if a.cmd == "selftest": sys.exit(do_selftest(a))
     if a.cmd == "mkknown": sys.exit(do_mkknown(a))
     if a.cmd == "run": sys.exit(do_run(a))
     if a.cmd == "replay": sys.exit(do_replay(a))
